@@ -418,6 +418,12 @@ func c06Check(e *Env, st *c06Stream, rep rtcp.ReceptionReport, now time.Time, lo
 		if dd < 0 {
 			dd = -dd
 		}
+		if j > 0 && now.Before(st.srTime[j-1]) && rep.LastSenderReport == wantLSR {
+			// the supplied clock was set back past the sender report's arrival: "delay since" is not defined
+			okSR = true
+			e.Probe("dlsr_negative_elapsed")
+			break
+		}
 		if rep.LastSenderReport == wantLSR && dd <= 1 {
 			okSR = true
 			if j > 0 {
